@@ -40,8 +40,8 @@ class Engine(object):
         """
 
         from pybtex import auxfile
-        if bib_format is None:
-            from pybtex.database.input.bibtex import Parser as bib_format
+        from pybtex.plugin import find_plugin
+        bib_format = find_plugin('pybtex.database.input', bib_format)
 
         aux_data = auxfile.parse_file(aux_filename, output_encoding)
         if style is None:
@@ -50,8 +50,9 @@ class Engine(object):
         bib_filenames = [filename + bib_format.default_suffix for filename in aux_data.data]
         return self.format_from_files(
             bib_filenames,
-            style=aux_data.style,
+            style=style,
             citations=aux_data.citations,
+            bib_format=bib_format,
             output_encoding=output_encoding,
             output_filename=base_filename,
             add_output_suffix=True,
